@@ -139,6 +139,14 @@ func init() {
 						if rng.Intn(2) == 0 {
 							lat = -rng.Float64() * 80
 						}
+					case 5, 6: // within nanodegrees of the prime meridian and/or the equator: small is not zero
+						tiny := []float64{3e-9, -3e-9, 4e-10, -4e-10, 1e-9, -2.5e-10, 7e-9}
+						if rng.Intn(2) == 0 {
+							lon = tiny[rng.Intn(len(tiny))]
+						}
+						if rng.Intn(2) == 0 {
+							lat = tiny[rng.Intn(len(tiny))]
+						}
 					}
 					if len(prevLon) > 0 && rng.Intn(3) == 0 {
 						r := len(prevLon) - 1
@@ -171,6 +179,14 @@ func init() {
 				var items []string
 				for j := 0; j < k; j++ {
 					lon, lat := rng.Float64()*360-180, rng.Float64()*170-85
+					if rng.Intn(6) == 0 {
+						tiny := []float64{3e-9, -3e-9, 4e-10, -4e-10, 1e-9, -2.5e-10, 7e-9}
+						if rng.Intn(2) == 0 {
+							lon = tiny[rng.Intn(len(tiny))]
+						} else {
+							lat = tiny[rng.Intn(len(tiny))]
+						}
+					}
 					alt := (rng.Float64()*2 - 1) * 1e3
 					x, y, ok := projOracle(lon, lat, alt, crs, true)
 					if !ok {
@@ -211,6 +227,13 @@ func init() {
 				lat = 85.0511287798 * float64(1-2*rng.Intn(2))
 			case 3:
 				lon = 180 * float64(1-2*rng.Intn(2))
+			case 4: // nanodegrees from the prime meridian / the equator
+				tiny := []float64{3e-9, -3e-9, 4e-10, -4e-10, 1e-9, -2.5e-10, 7e-9}
+				if rng.Intn(2) == 0 {
+					lon = tiny[rng.Intn(len(tiny))]
+				} else {
+					lat = tiny[rng.Intn(len(tiny))]
+				}
 			}
 			do("projrt", fbits(lon), fbits(lat), fbits(alt), "3857")
 		}
